@@ -132,6 +132,9 @@ theorem keeps_other' (c : Conn) (id : Nat) (st : Strm) (e : Ev) (hk : Keeps c id
     cases hg : getS c j with
     | some stj =>
       simp only []
+      by_cases hsc : (srvTrailerStateCheck && stj.halfClosed) = true   -- [c08l9]
+      · rw [if_pos hsc]; exact Or.inr (keeps_streamError c id j st _ hk hj)
+      rw [if_neg hsc]
       by_cases hgt : stj.gotTrailer = true
       · rw [if_pos hgt]; exact Or.inl rfl
       rw [if_neg hgt]
